@@ -15,6 +15,8 @@ int cmd_kpk_table(const Args&);
 int cmd_hashtable_replay(const Args&);
 int cmd_order_replay(const Args&);
 int cmd_nearmate_pool(const Args&);
+int cmd_scripted_engine(const Args&);
+int cmd_referee_games(const Args&);
 int cmd_polyglot_replay(const Args&);
 int cmd_polyglot_walk(const Args&);
 int cmd_book_replay(const Args&);
@@ -53,6 +55,8 @@ int main(int argc, char** argv)
     if (cmd == "hashtable-replay") return vh::cmd_hashtable_replay(a);
     if (cmd == "order-replay") return vh::cmd_order_replay(a);
     if (cmd == "nearmate-pool") return vh::cmd_nearmate_pool(a);
+    if (cmd == "scripted-engine") return vh::cmd_scripted_engine(a);
+    if (cmd == "referee-games") return vh::cmd_referee_games(a);
     if (cmd == "polyglot-replay") return vh::cmd_polyglot_replay(a);
     if (cmd == "polyglot-walk") return vh::cmd_polyglot_walk(a);
     if (cmd == "book-replay") return vh::cmd_book_replay(a);
